@@ -3,6 +3,7 @@ package main
 import (
 	"fmt"
 	"go/types"
+	"regexp"
 	"strings"
 
 	"golang.org/x/tools/go/ssa"
@@ -329,6 +330,9 @@ func (e *Eval) applyContract(fr *Frame, k *Contract, pkg *ssa.Package, pnames []
 			c.Unsupported("%v", err)
 			continue
 		}
+		if mentionsLogical(k, cl.Text) {
+			continue // clauses over the callee's logical variables are not used by callers
+		}
 		c.Assert(implies(normalCond, env2.evalBool(ex)))
 	}
 	for _, cl := range k.BridgeEnsures {
@@ -409,6 +413,28 @@ func (e *Eval) havocFrame(k *Contract, env *Env, post, pre *State) {
 				continue
 			}
 			e.havocComp(post, e.elemComp(t))
+		case strings.HasPrefix(m, "fields(") && strings.HasSuffix(m, ")"):
+			// fields(p): every field of the one object p points to
+			ex, err := ParseSpecExpr(m[7 : len(m)-1])
+			if err != nil {
+				c.Unsupported("modifies %s: %v", m, err)
+				continue
+			}
+			tv := env.eval(ex)
+			pt, ok := tv.Ty.Underlying().(*types.Pointer)
+			if !ok || !isStruct(pt.Elem()) {
+				c.Unsupported("modifies %s: not a pointer to a struct", m)
+				continue
+			}
+			stt := pt.Elem().Underlying().(*types.Struct)
+			for i := 0; i < stt.NumFields(); i++ {
+				ft := stt.Field(i).Type()
+				a := &Addr{Kind: "field", Comp: e.declField(pt.Elem(), i), Base: tv.T, Typ: ft, Root: ft}
+				nv := c.Fresh("hv.field", c.Sort(ft))
+				c.Assert(e.typeInv(ft, nv))
+				e.noteVal(ft, nv)
+				e.storeAddr(post, a, nv)
+			}
 		case strings.HasPrefix(m, "implsof(") && strings.HasSuffix(m, ")"):
 			for _, t := range e.implsOf(env, m[8:len(m)-1]) {
 				stt := t.Underlying().(*types.Struct)
@@ -633,7 +659,7 @@ func (e *Eval) callParamFn(fr *Frame, cc *ssa.CallCommon, pname string, args []V
 	if e.rootC != nil && e.rootC.Wrapper != nil && e.rootC.Wrapper.Param == pname && fr == e.root {
 		e.declHeld()
 		// the during-state must be established
-		env := e.newEnv(e.root.fn.Pkg, e.entry, e.entry)
+		env := e.newEnv(e.rootPkg, e.entry, e.entry)
 		e.bindParams(env, e.root)
 		want := NewState()
 		want.m["$held"] = c.Get(e.entry, "$held")
@@ -694,7 +720,7 @@ func (e *Eval) atClauses(fr *Frame, cc *ssa.CallCommon, name, site, kind string,
 			e.c.Unsupported("%v", err)
 			continue
 		}
-		env := e.newEnv(e.root.fn.Pkg, st, e.entry)
+		env := e.newEnv(e.rootPkg, st, e.entry)
 		e.bindParams(env, e.root)
 		sig := cc.Signature()
 		off := 0
@@ -855,4 +881,13 @@ func (e *Eval) implsOf(env *Env, iface string) []types.Type {
 		}
 	}
 	return out
+}
+
+func mentionsLogical(k *Contract, text string) bool {
+	for _, lv := range k.Logical {
+		if regexp.MustCompile(`\b` + regexp.QuoteMeta(lv[0]) + `\b`).MatchString(text) {
+			return true
+		}
+	}
+	return false
 }
